@@ -64,10 +64,18 @@ impl Prop for C10P {
         for (c, r) in super::hugezst::shapes() {
             v.push(format!("hugezst {}x{}", c, r));
         }
+        for (c, r) in super::hugezst::mid_shapes(tier) {
+            v.push(format!("midsize {}x{}", c, r));
+        }
         v
     }
     fn run_unit(&self, unit: &str, ctx: &mut Ctx) {
         let p: Vec<&str> = unit.split(' ').collect();
+        if p[0] == "midsize" {
+            let (c, r) = super::hugezst::parse_shape(p[1]);
+            run_mid(c, r, ctx);
+            return;
+        }
         if p[0] == "hugezst" {
             let (c, r) = super::hugezst::parse_shape(p[1]);
             run_huge_zst(c, r, ctx);
@@ -84,6 +92,7 @@ impl Prop for C10P {
          every proper prefix closed with count, last, fold, rfold, for_each, rev-then-forward. Since every (front row, row iterator, back row) emptiness combination is reachable in two calls, depth 3 applies every letter in each. \
          Results compared by ADDRESS with the ideal row-major VecDeque; cells_mut items are written through and the array must show exactly those writes (each cell exactly once). \
          Arrays of () with close to usize::MAX cells and their windows: cells() / cells_mut() / (&array).into_iter() must report exact len()/size_hint() and follow the ideal sequence by count for every sequence of up to three calls of next / next_back / nth(0..=2) / nth_back(0..=2), and - when at most four cells are left - jumps by huge n, count and last. \
+         Arrays of ordinary cells whose dimensions cross 256 (thorough: 65536) and strided windows of them: the same short sequences with jumps around those sizes, every yielded cell compared by ADDRESS. \
          states = distinct (subject, front, back) cursor positions; transitions = iterator calls; traces_validated_against_impl = sequences executed."
             .into()
     }
@@ -242,5 +251,62 @@ fn run_subject(kind: &str, c: usize, r: usize, mode: &str, ctx: &mut Ctx) {
                 }
             },
         );
+    }
+}
+
+/// cells() / cells_mut() / into_iter() of arrays whose dimensions cross 256 / 65536 and of strided windows of them.
+fn run_mid(c: usize, r: usize, ctx: &mut Ctx) {
+    use super::hugezst::{enc, mid_sequences, run_indexed};
+    let mut wins: Vec<((usize, usize), (usize, usize))> = vec![((0, 0), (c, r))];
+    if c > 2 {
+        wins.push(((1, 0), (c - 1, r)));
+    }
+    if r > 2 {
+        wins.push(((0, 1), (c, r - 1)));
+    }
+    for (s, e) in wins {
+        let (wc, wr) = (e.0 - s.0, e.1 - s.1);
+        let len = wc * wr;
+        for seq in mid_sequences(len, &[c, wc]) {
+            for kind in 0..5u8 {
+                if kind < 3 && (s, e) != ((0, 0), (c, r)) {
+                    continue;
+                }
+                let name = ["TooDee::cells()", "TooDee::cells_mut()", "(&TooDee).into_iter()", "view(..).cells()", "view_mut(..).cells_mut()"][kind as usize];
+                ctx.case(
+                    || format!("TooDee<u32> {}x{} window {:?}-{:?} {}: {}", c, r, s, e, name, enc(&seq)),
+                    |cs| {
+                        cs.nontrivial((c, r, s, e, kind, &seq));
+                        cs.outcome("mid-size");
+                        cs.transitions = seq.len() as u64;
+                        cs.traces = 1;
+                        let mut t = new_root(c, r);
+                        let base = t.data().as_ptr() as usize;
+                        let what = format!("{} of the {}x{} window", name, wc, wr);
+                        let ok = |addr: usize, idx: usize| {
+                            let exp = base + ((s.1 + idx / wc) * c + s.0 + idx % wc) * 4;
+                            if addr == exp {
+                                None
+                            } else {
+                                Some(format!("cell #{} expected at {:#x}, got {:#x}", idx, exp, addr))
+                            }
+                        };
+                        match kind {
+                            0 => run_indexed(t.cells(), len, &seq, |e, i| ok(*e as *const u32 as usize, i), true, &what, cs),
+                            1 => run_indexed(t.cells_mut(), len, &seq, |e, i| ok(&**e as *const u32 as usize, i), true, &what, cs),
+                            2 => run_indexed((&t).into_iter(), len, &seq, |e, i| ok(*e as *const u32 as usize, i), true, &what, cs),
+                            3 => {
+                                let v = t.view(s, e);
+                                run_indexed(v.cells(), len, &seq, |e, i| ok(*e as *const u32 as usize, i), true, &what, cs)
+                            }
+                            _ => {
+                                let mut v = t.view_mut(s, e);
+                                run_indexed(v.cells_mut(), len, &seq, |e, i| ok(&**e as *const u32 as usize, i), true, &what, cs)
+                            }
+                        }
+                    },
+                );
+            }
+        }
     }
 }
